@@ -145,12 +145,14 @@ def rand_node(rng, ids, depth, kind=None):
         kind = "text"
     if kind == "tag":
         n = rng.choice([0, 1, 2, 3, 4])
-        return gen.TAG(rng.choice(lg.BLOCKS + lg.INLINES + ["br", "script", "style", "head", "body"]), *[rand_node(rng, ids, depth - 1) for _ in range(n)],
+        return gen.TAG(rng.choice(lg.BLOCKS + lg.INLINES + ["br", "hr", "img", "script", "style", "head", "body"]), *[rand_node(rng, ids, depth - 1) for _ in range(n)],
                        ws=rng.random() < 0.5, how=rng.choice(gen.HOWS), via_fn=False)
+    if kind == "empty":
+        return rng.choice([{"k": "text", "s": ""}, {"k": "html", "s": ""}])
     if kind == "text":
-        return {"k": "text", "s": ids.next("t")}
+        return {"k": "text", "s": ids.next("t") if rng.random() < 0.93 else ""}
     if kind == "html":
-        return {"k": "html", "s": "<i>" + ids.next("h") + "</i>"}
+        return {"k": "html", "s": "<i>" + ids.next("h") + "</i>" if rng.random() < 0.93 else ""}
     if kind == "obj":
         return {"k": "obj", "s": "<u>" + ids.next("o") + "</u>"}
     if kind == "meta":
@@ -163,7 +165,7 @@ def rand_node(rng, ids, depth, kind=None):
     if kind in ("tf", "tfobj"):
         ret = rng.choice(["list", "list", "list", "one"])
         if ret == "one":
-            c = [rand_node(rng, ids, depth - 1, rng.choice(["tag", "text", "html", "dep", "meta", "tf"]))]
+            c = [rand_node(rng, ids, depth - 1, rng.choice(["tag", "text", "html", "dep", "meta", "tf", "empty"]))]
         else:
             c = tf_payload(rng, ids, depth)
         r = {"k": kind, "ret": ret, "c": c}
